@@ -18,11 +18,28 @@ NOT_APPLICABLE = [
     {"property_id": "C20", "reason": "iptables rule text is a pure function of the capture configuration; " + PURE},
 ]
 # properties planned in DESIGN.md whose check is not built yet (removed from here as they land)
-for _p, _sec in [("C04", "4.4"), ("C06", "4.6"), ("C11", "4.7"), 
+for _p, _sec in [("C06", "4.6"), ("C11", "4.7"), 
                  ("C15", "4.9"), ("C16", "4.10"), ("C18", "4.12")]:
     NOT_APPLICABLE.append({"property_id": _p, "reason": "not claimed yet: simulation target (DESIGN.md section %s) whose check is still being built; not a not-applicable verdict" % _sec})
 
 PROPERTIES = {
+    "C04": {
+        "design_ref": "4.4",
+        "technique": "deterministic simulation: closed loop between the real per-connection goroutines and a conformant client model (SotW and delta) with an independent obligation model, pushes/requests/NACKs/resubscriptions interleaved by the simulator; separate non-conformant request generator for the crash clause",
+        "level_text": "seeded search over interleavings of client requests (ACK, NACK, stale nonce, added names, duplicates, unsubscribe/resubscribe) with server pushes; phase A checks liveness obligations and the server's subscription record under concurrency, phase B injects one protocol event at a time into a quiet system where 'answered or silent' is exactly attributable; c04x sends arbitrary request sequences and only demands survival; sampling, not proof",
+        "level_note": "trusted: testing/synctest, the obligation model (written from the xDS protocol text: must-answer = request adding names; must-stay-silent = repeated ACK, NACK, stale nonce; everything else free), client models; a panic in an istio goroutine kills the worker and is attributed to the run by the orchestrator",
+        "rule": "c04: 1 client, 5-45 phase-A steps from {mutate, gap, deliver response, reject response, deliver request, unsubscribe+resubscribe, duplicate request}, then 3-12 attributable phase-B events; c04x: 3-27 arbitrary requests over 9 type URLs x 4 nonce kinds x name sets x error_detail; distinct = distinct schedule signature; non-trivial = a client request was queued while a server response was parked (c04) / a rejection arrived for a type with no prior response (c04x)",
+        "real": WIS_REAL, "stub": WIS_STUB,
+        "assumptions": ["silence is only asserted in the quiet phase (with concurrent pushes a response cannot be attributed to a request)"],
+        "subchecks": [
+            {"check": "c04", "what": "conformant client, obligation model, record equality, no push loop", "nontrivial": "request queued while a response was parked",
+             "budget": {"quick": 45, "thorough": 600}, "seeds": {"quick": 1, "thorough": 3}, "chunk": 20,
+             "must_probe": ["request_races_push", "event_add_name", "event_nack", "event_stale_nonce"]},
+            {"check": "c04x", "what": "arbitrary request sequences: no crash, no deadlock", "nontrivial": "rejection for a type with no prior response",
+             "budget": {"quick": 25, "thorough": 300}, "seeds": {"quick": 1, "thorough": 3}, "chunk": 20,
+             "must_probe": ["nack_without_prior_response", "responses"]},
+        ],
+    },
     "C05": {
         "design_ref": "4.5",
         "technique": "deterministic simulation of the whole control plane with fault injection on the simulator-owned transport: stream cut at any step (incl. mid-push), send errors, client crash+reconnect with retained state, istiod restart over surviving API-server state, second live replica; fresh-replica and nothing-stays-warming oracles once faults stop",
